@@ -83,7 +83,7 @@ func classifyPanic(msg string) string {
 func runM(pid string, cs []mCase, capMs int) ([]gCase, [][]Failure, map[string]interface{}) {
 	reqs := make([]decReq, len(cs))
 	for i := range cs {
-		reqs[i] = decReq{ID: i, Sid: cs[i].g.Sid, Bytes: cs[i].g.Bytes, PriorSeed: cs[i].seed}
+		reqs[i] = decReq{ID: i, Sid: cs[i].g.Sid, Entry: cs[i].g.Entry, Bytes: cs[i].g.Bytes, PriorSeed: cs[i].seed}
 	}
 	resp := decodeMany(reqs, 12, capMs)
 	out := make([]gCase, len(cs))
@@ -119,14 +119,18 @@ func runM(pid string, cs []mCase, capMs int) ([]gCase, [][]Failure, map[string]i
 		case strings.HasPrefix(r.Obs, "OPanic"):
 			cls = "panic"
 			add("decode/panic/"+classifyPanic(r.Err), "decoding panicked: "+r.Err)
-		case r.Obs == "OErr":
+		case r.Obs == "OErr" || r.Obs == "SlErr":
 			cls = "err"
 		}
 		if pid == "C05" && r.Died == "" && r.Alloc > 256*uint64(len(g.Bytes))+(1<<20) {
 			if !g.NoCoq && g.Kind != "reuse" && g.Kind != "enc" {
 				g.Huge = true
 			}
-			add("decode/over-allocation", fmt.Sprintf("decoding %d bytes allocated %d bytes (> 256 x input + 1 MiB)", len(g.Bytes), r.Alloc))
+			sig := "decode/over-allocation"
+			if c.sigHint != "" {
+				sig += "/" + c.sigHint
+			}
+			add(sig, fmt.Sprintf("decoding %d bytes allocated %d bytes (> 256 x input + 1 MiB)", len(g.Bytes), r.Alloc))
 		}
 		if pid == "C05" && r.Died == "" && r.Us > slowLimitUs(len(g.Bytes)) && stillSlow(reqs[i]) {
 			add("decode/slow", fmt.Sprintf("decoding %d bytes took %d us (limit %d us: not linear in the input)", len(g.Bytes), r.Us, slowLimitUs(len(g.Bytes))))
@@ -134,6 +138,16 @@ func runM(pid string, cs []mCase, capMs int) ([]gCase, [][]Failure, map[string]i
 		classes[g.Kind+"/"+cls]++
 		if r.Died == "" && !strings.HasPrefix(r.Obs, "OPanic") {
 			switch c.expect {
+			case "slice": // ReadSliceInt8/Uint8(&target, n): all n bytes or an error, nothing of the target's old content
+				n := int(int32(uint32(g.Bytes[0])<<24 | uint32(g.Bytes[1])<<16 | uint32(g.Bytes[2])<<8 | uint32(g.Bytes[3])))
+				payload := g.Bytes[4:]
+				if n < 0 || n > len(payload) {
+					if r.Obs != "SlErr" {
+						add("decode/byte-vector/bad-length-accepted", fmt.Sprintf("%s with length %d on %d bytes succeeded: %s", g.Entry, n, len(payload), trunc200(r.Obs)))
+					}
+				} else if want := fmt.Sprintf("(SlVal %s %d)", hx(payload[:n]), len(payload)-n); r.Obs != want {
+					add("decode/byte-vector/value-differs", fmt.Sprintf("%s with length %d on %d bytes gave %s, expected %s", g.Entry, n, len(payload), trunc200(r.Obs), want))
+				}
 			case "err":
 				if r.Obs != "OErr" {
 					add("decode/"+c.sigHint+"/accepted", "expected an error, decoding succeeded with "+trunc200(r.Obs))
@@ -175,6 +189,9 @@ func runMProp(pid, corr, rule string, a Args, gen func(tier string, rng *rand.Ra
 				ms = make([]mCase, len(cs))
 				for i := range cs {
 					ms[i] = mCase{g: cs[i], expect: "safe"}
+					if cs[i].Kind == "slice" {
+						ms[i].expect = "slice"
+					}
 				}
 			}
 			gs, fails, st := runM(pid, ms, capMs)
@@ -318,6 +335,13 @@ func c06Gen(tier string, rng *rand.Rand) []mCase {
 					c.expect, c.sigHint = "err", "inflated-count"
 					cs = append(cs, c)
 				}
+				// a negative count (BYTE -1, SHORT -32768, INT -2^31) is no count: list, map and simple list alike
+				for _, neg := range [][]byte{{0x00, 0xff}, {0x01, 0x80, 0x00}, {0x02, 0x80, 0x00, 0x00, 0x00}} {
+					nb := append(append(append([]byte(nil), b.bytes[:cf.Start]...), neg...), b.bytes[cf.End:]...)
+					c := mk("negative-count", fmt.Sprintf("count of wire type %d at %d -> % x", s.Ty, cf.Start, neg), nb)
+					c.expect, c.sigHint = "err", "negative-count"
+					cs = append(cs, c)
+				}
 			}
 		}
 		// inadmissible wire types
@@ -336,6 +360,18 @@ func c06Gen(tier string, rng *rand.Rand) []mCase {
 				c := mk("mistyped", fmt.Sprintf("tag %d (%s) replaced by wire type %d", s.Tag, ft.String(), ty), nb)
 				c.expect, c.sigHint = "err", "inadmissible-wire-type"
 				cs = append(cs, c)
+			}
+		}
+	}
+	// codec.Reader.ReadSliceInt8 / ReadSliceUint8 directly (the generated SimpleList branch calls them with the count from
+	// the wire): every length around 0 and around the bytes left, into a slice that holds other content
+	for _, entry := range []string{"slice-int8", "slice-uint8"} {
+		for plen := 0; plen <= 5; plen++ {
+			payload := make([]byte, plen)
+			rng.Read(payload)
+			for _, n := range []int64{-2147483648, -129, -1, 0, 1, int64(plen) - 1, int64(plen), int64(plen) + 1, int64(plen) + 70000, 2147483647} {
+				bs := append([]byte{byte(uint32(n) >> 24), byte(uint32(n) >> 16), byte(uint32(n) >> 8), byte(uint32(n))}, payload...)
+				cs = append(cs, mCase{g: gCase{Kind: "slice", Entry: entry, Bytes: bs, Note: fmt.Sprintf("%s length %d on %d bytes", entry, n, plen), Class: "slice/" + entry}, expect: "slice"})
 			}
 		}
 	}
@@ -392,6 +428,62 @@ func insertExtras(rng *rand.Rand, bs []byte, spans []span, known map[int]bool, n
 	return out
 }
 
+type nestedRemoval struct {
+	kind, note string
+	bytes      []byte
+	req, last  bool
+}
+
+// nestedRemovals walks the wire tree of a valid encoding alongside the Go type and, for every struct value that is
+// NOT the top-level one, removes each member in turn; for a required member also together with everything behind it
+// (so that the search for it runs into the StructEnd)
+func nestedRemovals(top reflect.Type, spans []span, bs []byte) []nestedRemoval {
+	var out []nestedRemoval
+	var visit func(t reflect.Type, s span, depth int)
+	visitStruct := func(t reflect.Type, kids []span, end int, depth int, nested bool) {
+		for i, k := range kids {
+			ft, req, ok := fieldTypeByTag(t, k.Tag)
+			if !ok {
+				continue
+			}
+			if nested {
+				last := i == len(kids)-1
+				kind := "nested-absent-optional"
+				if req {
+					kind = "nested-absent-required"
+				}
+				nb := append(append([]byte(nil), bs[:k.Start]...), bs[k.End:]...)
+				out = append(out, nestedRemoval{kind, fmt.Sprintf("member tag %d of a %s at depth %d removed (last present member: %v)", k.Tag, t.Name(), depth, last), nb, req, last})
+				if req && !last {
+					nb2 := append(append([]byte(nil), bs[:k.Start]...), bs[end-1:]...)
+					out = append(out, nestedRemoval{"nested-absent-required", fmt.Sprintf("member tag %d of a %s at depth %d and all members behind it removed", k.Tag, t.Name(), depth), nb2, true, true})
+				}
+			}
+			visit(ft, k, depth+1)
+		}
+	}
+	visit = func(t reflect.Type, s span, depth int) {
+		switch {
+		case t.Kind() == reflect.Struct && s.Ty == 10:
+			visitStruct(t, s.Kids, s.End, depth, true)
+		case (t.Kind() == reflect.Slice || t.Kind() == reflect.Array) && s.Ty == 9:
+			for _, k := range s.Kids {
+				visit(t.Elem(), k, depth+1)
+			}
+		case t.Kind() == reflect.Map && s.Ty == 8:
+			for i, k := range s.Kids {
+				if i%2 == 0 {
+					visit(t.Key(), k, depth+1)
+				} else {
+					visit(t.Elem(), k, depth+1)
+				}
+			}
+		}
+	}
+	visitStruct(top, spans, len(bs), 0, false)
+	return out
+}
+
 func c04Gen(tier string, rng *rand.Rand) []mCase {
 	per, maxLen := 3, 500
 	if tier == "thorough" {
@@ -432,8 +524,8 @@ func c04Gen(tier string, rng *rand.Rand) []mCase {
 		}
 		// absent members
 		for _, s := range b.spans {
-			_, req, ok := fieldTypeByTag(b.e.typ, s.Tag)
-			if !ok || rng.Intn(2) == 0 {
+			ft, req, ok := fieldTypeByTag(b.e.typ, s.Tag)
+			if !ok || (ft.Kind() != reflect.Struct && rng.Intn(2) == 0) { // struct-typed members: always (their reset is a path of its own)
 				continue
 			}
 			nb := append(append([]byte(nil), b.bytes[:s.Start]...), b.bytes[s.End:]...)
@@ -459,12 +551,44 @@ func c04Gen(tier string, rng *rand.Rand) []mCase {
 				cs = append(cs, c)
 			}
 		}
+		// members removed INSIDE nested structs, at every nesting level (struct members, vector/array elements, map
+		// keys and values): a required member that is absent is an error also when the search for it ends on the
+		// nested struct's StructEnd; an absent optional member is judged by the model
+		for _, nr := range nestedRemovals(b.e.typ, b.spans, b.bytes) {
+			if !nr.last && rng.Intn(3) != 0 {
+				continue
+			}
+			c := mk(nr.kind, nr.note, nr.bytes)
+			if nr.req {
+				c.expect, c.sigHint = "err", nr.kind
+			} else {
+				c.expect = "any"
+			}
+			cs = append(cs, c)
+		}
 		// reused target
 		for i := 0; i < 2; i++ {
 			c := mk("reuse", "decode into a target holding a previous value", b.bytes)
 			c.g.Kind = "reuse"
 			c.seed = rng.Int63() | 1
 			c.expect, c.ref, c.sigHint = "equal", clean, "reused-target"
+			cs = append(cs, c)
+		}
+		// ... and the same for the mutated inputs of this base (unknown fields, members removed at any level): decoding
+		// ANY bytes into a used target gives what decoding them into a fresh target gives (value or error alike)
+		for j, n := clean+1, len(cs); j < n; j++ {
+			o := cs[j]
+			if o.g.Kind != "dec" {
+				continue
+			}
+			absent := strings.Contains(o.g.Class, "absent-optional")
+			if !absent && rng.Intn(3) != 0 {
+				continue
+			}
+			c := mk("reuse-mutated", "decode into a target holding a previous value: "+o.g.Note, o.g.Bytes)
+			c.g.Kind = "reuse"
+			c.seed = rng.Int63() | 1
+			c.expect, c.ref, c.sigHint = "equal", j, "reused-target"
 			cs = append(cs, c)
 		}
 	}
@@ -474,12 +598,12 @@ func c04Gen(tier string, rng *rand.Rand) []mCase {
 func init() {
 	props["C06"] = func(a Args) {
 		runMProp("C06", "Corr.dec_check (decode = generated ReadFrom on truncated / inflated / mistyped encodings: same outcome class and value)",
-			"valid encodings of random values of every generated struct type, then: every proper prefix (all when <= 24 bytes (thorough 120), else sampled incl. cuts inside heads, lengths and bodies) judged against the decode of the complete leading fields; every embedded string length and list/map/simple-list count inflated beyond what remains (+1, +65536/+40000); top-level members replaced by a well-formed field of an inadmissible wire type; class = (mutation kind, struct type)",
+			"valid encodings of random values of every generated struct type, then: every proper prefix (all when <= 24 bytes (thorough 120), else sampled incl. cuts inside heads, lengths and bodies) judged against the decode of the complete leading fields; every embedded string length and list/map/simple-list count inflated beyond what remains (+1, +65536/+40000) and every count replaced by a negative one (-1, -32768, -2^31); top-level members replaced by a well-formed field of an inadmissible wire type; codec.Reader.ReadSliceInt8/Uint8 called directly with lengths -2^31..2^31-1 around 0 and the bytes left, into a slice holding other content; class = (mutation kind, struct type)",
 			a, c06Gen, 10000)
 	}
 	props["C04"] = func(a Args) {
 		runMProp("C04", "Corr.dec_check / reuse_check (decode = generated ReadFrom with unknown fields inserted, members removed, target reused)",
-			"valid encodings of random values of every generated struct type, then: 1-5 well-formed unknown fields of random wire types (nested struct/list/map/simple list, STRING4, extended tags) inserted at the positions tag order allows, at top level and inside nested struct members; each member removed (required -> error, optional -> default); decode into a target pre-filled with another random value; class = (kind, struct type)",
+			"valid encodings of random values of every generated struct type, then: 1-5 well-formed unknown fields of random wire types (nested struct/list/map/simple list, STRING4, extended tags) inserted at the positions tag order allows, at top level and inside nested struct members; each member removed (required -> error, optional -> default) at top level and inside every nested struct value (struct members, vector/array elements, map keys/values; a required member also together with everything behind it, so that the search ends on the StructEnd); decode into a target pre-filled with another random value - the clean encoding and the mutated ones (extras, members removed) alike, judged against the decode of the same bytes into a fresh target; class = (kind, struct type)",
 			a, c04Gen, 10000)
 	}
 }
